@@ -42,3 +42,9 @@ def generate(repo, emit, src, func_body):
     o = func_body(s, r'static\s+var\s+File_Open\s*\([^)]*\)\s*\{')
     oko = bool(o) and re.search(r'if\s*\(\s*f->file\s+isnt\s+NULL\s*\)\s*\{\s*File_Close\s*\(\s*self\s*\)\s*;\s*\}\s*f->file\s*=\s*fopen\s*\(', o)
     emit('file_del_open_shape', 'Definition file_del_open_shape : bool := true.   (* File_Del / File_Open close only an open File; File_Open stores the result of fopen *)' if (okd and oko) else None)
+    # the Format sink: nothing between the closed test and the single vfprintf / vfscanf call on the stream
+    ft = func_body(s, r'static\s+int\s+File_Format_To\s*\([^)]*\)\s*\{')
+    ff = func_body(s, r'static\s+int\s+File_Format_From\s*\([^)]*\)\s*\{')
+    shape = r'\{\s*struct\s+File\s*\*\s*f\s*=\s*self\s*;\s*if\s*\(\s*f->file\s+is\s+NULL\s*\)\s*\{\s*throw\s*\([^;]*\)\s*;\s*\}\s*return\s+%s\s*\(\s*f->file\s*,\s*fmt\s*,\s*va\s*\)\s*;\s*\}\s*$'
+    okf = bool(ft) and bool(ff) and re.match(shape % 'vfprintf', ft) and re.match(shape % 'vfscanf', ff)
+    emit('file_format_direct', 'Definition file_format_direct : bool := true.   (* File_Format_To / _From: closed test, then exactly `return vfprintf/vfscanf(f->file, fmt, va);` *)' if okf else None)
